@@ -34,6 +34,8 @@ struct FailState {
     /// fail at the hit with this index (counted from the last `failpoints_arm`)
     plan: Option<(usize, FailAction)>,
     fired: bool,
+    /// while suspended, failpoints are neither counted nor fail
+    suspended: bool,
 }
 
 thread_local! {
@@ -50,6 +52,11 @@ pub fn failpoints_arm(plan: Option<(usize, FailAction)>) {
     })
 }
 
+/// Suspend or resume failpoints on this thread (e.g. while another client's calls run).
+pub fn failpoints_suspend(suspended: bool) {
+    FAIL.with(|f| f.borrow_mut().suspended = suspended)
+}
+
 /// The failpoints hit on this thread since the last `failpoints_arm`, and whether the planned
 /// failure fired.
 pub fn failpoints_report() -> (Vec<String>, bool) {
@@ -63,6 +70,9 @@ pub fn failpoints_report() -> (Vec<String>, bool) {
 pub(crate) fn failpoint(name: &str) -> Result<()> {
     let action = FAIL.with(|f| {
         let mut f = f.borrow_mut();
+        if f.suspended {
+            return None;
+        }
         let idx = f.hits.len();
         f.hits.push(name.to_string());
         match f.plan {
